@@ -1030,6 +1030,18 @@ def rule_r9(repo):
                     name, what, k, (list(a.items()) if isinstance(a, dict) else a)[k:k + 2] if k is not None else a, (list(b.items()) if isinstance(b, dict) else b)[k:k + 2] if k is not None else b),
                     witness={'template': name})
                 break
+        # the same compiled statements run a second time (the next message with this template): nothing of the first run may be left
+        # in them - same result again
+        st3, rd3 = P.plain_state(repo), P.ScriptReader(script)
+        r3 = P.replay(repo, stmts, st3, rd3)
+        if r3.ok != r2.ok or (r3.ok and (rd3.log != rd2.log or st3.fields['decoded_values_all_subsets'] != st2.fields['decoded_values_all_subsets'] or
+                                         [_dk(d) for d in st3.fields['decoded_descriptors_all_subsets'][0]] != [_dk(d) for d in st2.fields['decoded_descriptors_all_subsets'][0]] or
+                                         st3.fields['bitmap_links_all_subsets'] != st2.fields['bitmap_links_all_subsets'])):
+            k = _first_idx(rd2.log, rd3.log)
+            rr.fail('concrete:%s:second-run' % name, fi.where, '%s: running the same compiled template a second time %s and asks for other fields than the first run (first '
+                    'difference at field %s: %r / %r; values %r / %r): a compiled template must not be used up by being run' % (
+                        name, _outcome(r3), k, rd2.log[k:k + 1] if k is not None else None, rd3.log[k:k + 1] if k is not None else None,
+                        st2.fields['decoded_values_all_subsets'][0][-4:], st3.fields['decoded_values_all_subsets'][0][-4:]), witness={'template': name})
         # encoder: the decoded values written back by the plain walk and by the compiled template
         vals = st1.fields['decoded_values_all_subsets'][0]
         e1, _, w1 = P.encode(repo, members, vals)
